@@ -19,9 +19,23 @@ func (vc *VC) safety(pos token.Pos, pc, kind, goal, what string) {
 	if goal == "true" {
 		return
 	}
+	if vc.mode == Math && vc.bitsTwin() {
+		// the same function also has a bit-precise contract: run-time safety is decided there, over machine integers
+		return
+	}
 	vc.safeSeq[kind]++
 	name := vc.oblName("safe", fmt.Sprintf("%s@%d", kind, vc.safeSeq[kind]))
 	vc.addObl(&Obl{Name: name, Kind: "safe", Pos: vc.eng.fset.Position(pos), PC: pc, Goal: goal, Clause: what})
+}
+
+// bitsTwin: the function under verification also carries a (non-inline) bit-precise contract.
+func (vc *VC) bitsTwin() bool {
+	for _, c := range vc.eng.contractsOf(vc.fn) {
+		if c.Mode == "bits" && !c.Inline && !c.Trusted {
+			return true
+		}
+	}
+	return false
 }
 
 func (f *Frame) loopHead(li *loopInfo, b *ssa.BasicBlock, edges []Edge, pc string, st *State) (string, *State) {
@@ -860,6 +874,21 @@ func (vc *VC) boxFn(t types.Type) string {
 	return name
 }
 
+// unboxTerm: the value of Go type t held by interface term it (meaningful when its dynamic type is t).
+// Unboxing is the inverse of boxing: the axiom is added the first time a VC unboxes a value of this sort.
+func (vc *VC) unboxTerm(it string, t types.Type) string {
+	srt := vc.S.sortOf(t)
+	if srt == "Int" {
+		return fmt.Sprintf("(if.val %s)", it)
+	}
+	bf := vc.boxFn(t)
+	if !vc.declaredGhost["ax."+bf] {
+		vc.declaredGhost["ax."+bf] = true
+		vc.assume("true", fmt.Sprintf("(forall ((x!b %s)) (! (= (un%s (%s x!b)) x!b) :pattern ((%s x!b))))", srt, bf, bf, bf))
+	}
+	return fmt.Sprintf("(un%s (if.val %s))", bf, it)
+}
+
 func (f *Frame) typeAssert(x *ssa.TypeAssert, pc string) {
 	vc := f.vc
 	v := f.val(x.X)
@@ -881,8 +910,7 @@ func (f *Frame) typeAssert(x *ssa.TypeAssert, pc string) {
 	if srt == "Int" {
 		val = fmt.Sprintf("(if.val %s)", v.T)
 	} else {
-		bf := vc.boxFn(x.AssertedType)
-		val = fmt.Sprintf("(un%s (if.val %s))", bf, v.T)
+		val = vc.unboxTerm(v.T, x.AssertedType)
 	}
 	if !x.CommaOk {
 		vc.safety(x.Pos(), pc, "typeassert", ok, "type assertion succeeds")
